@@ -58,7 +58,7 @@ theorem every_exception_reaches_handler (cfg : Cfg) (x : Item) (s : St) (hw : x.
     let r := exec true x.body { s with log := s.log ++ [{ id := x.id, at_ := s.clock, due := x.due, seq := x.seq }] }
     (r.2 = none → (invoke cfg x s).1.hlog = s.hlog ∧ (invoke cfg x s).2 = none) ∧
     (∀ e, r.2 = some e → (invoke cfg x s).1.hlog = s.hlog ++ [e] ∧
-      (invoke cfg x s).2 = if cfg.handler e then none else some e) := by
+      (invoke cfg x s).2 = if cfg.handler s.hlog.length e then none else some e) := by
   intro r
   have hf := exec_frame true x.body { s with log := s.log ++ [{ id := x.id, at_ := s.clock, due := x.due, seq := x.seq }] }
   have hc := invoke_cases cfg x s
@@ -75,14 +75,15 @@ theorem every_exception_reaches_handler (cfg : Cfg) (x : Item) (s : St) (hw : x.
     · have : e' = e := by rw [show r.2 = some e from he] at h1; exact (Option.some.inj h1).symm
       subst this
       rw [h]
-      exact ⟨by simp [hf.2.2.1], rfl⟩
+      have hlen : r.1.hlog.length = s.hlog.length := by rw [show r.1.hlog = s.hlog from hf.2.2.1]
+      exact ⟨by simp [hf.2.2.1], by rw [hlen]⟩
 
 /-- **every_exception_reaches_handler (3): nothing escapes unseen.**  On a scheduler where everything is
 wrapped, an exception that escapes `start()`/`advance_to()` was passed to the handler and refused by it.
 In particular with a handler that always returns True the run never raises. -/
 theorem escaped_was_refused (cfg : Cfg) (tgt : Option Int) (s s' : St) (e : Err)
     (h : AllWrapped s) (hq : QAll viaCatch s) (hl : loop cfg tgt s = (s', .raised e)) :
-    cfg.handler e = false ∧ s'.hlog.getLast? = some e := by
+    cfg.handler (s'.hlog.length - 1) e = false ∧ s'.hlog.getLast? = some e := by
   obtain ⟨s1, hP, _, hi⟩ := loop_raised_inv (allWrapped_iter cfg tgt) s h hq s' e hl
   rcases iter_cases cfg tgt s1 with ⟨he, _⟩ | ⟨x, q', _, hd, _, ⟨_, hst⟩ | ⟨s2, ht, hf⟩⟩
   · rw [he] at hi; simp at hi
@@ -108,12 +109,12 @@ theorem escaped_was_refused (cfg : Cfg) (tgt : Option Int) (s s' : St) (e : Err)
         rw [hinv] at this
         simp only at this
         obtain ⟨h1, h2'⟩ := this
-        by_cases hh : cfg.handler e' = true
+        by_cases hh : cfg.handler s2.hlog.length e' = true
         · rw [if_pos hh] at h2'; cases h2'
         · rw [if_neg hh] at h2'
           have : e3 = e' := Option.some.inj h2'
           subst this
-          exact ⟨by simpa using hh, by rw [h1]; simp⟩
+          exact ⟨by rw [h1]; simpa using hh, by rw [h1]; simp⟩
 
 /-- **true_swallows (actions).** A wrapped action raises `e` and the handler returns True: the exception is
 swallowed — the handler saw it, the loop goes on with the next item, and what the action did before
@@ -122,7 +123,7 @@ theorem true_swallows (cfg : Cfg) (tgt : Option Int) (s s1 : St) (x : Item) (q' 
     (hen : s.enabled = true) (hd : s.queue.dequeue? Item.due = some (x, q')) (hpt : pastTarget tgt x = false)
     (ht : tick cfg tgt s x q' = some s1) (hc : x.cancelled = false) (hw : x.wrapped = true)
     (hr : (exec true x.body { s1 with log := s1.log ++ [{ id := x.id, at_ := s1.clock, due := x.due, seq := x.seq }] }).2 = some e)
-    (hh : cfg.handler e = true) :
+    (hh : cfg.handler s1.hlog.length e = true) :
     ∃ s2, iter cfg tgt s = .next x s2 ∧ s2.hlog = s1.hlog ++ [e] ∧ loop cfg tgt s = loop cfg tgt s2 ∧
       s2.queue = (exec true x.body { s1 with log := s1.log ++ [{ id := x.id, at_ := s1.clock, due := x.due, seq := x.seq }] }).1.queue := by
   have hi := iter_invokes hen hd hpt ht hc
@@ -134,7 +135,9 @@ theorem true_swallows (cfg : Cfg) (tgt : Option Int) (s s1 : St) (x : Item) (q' 
     · rw [hw] at h1 h3; rw [hr] at h1
       have : e' = e := (Option.some.inj h1).symm
       subst this
-      rw [h3, if_pos hh]
+      have hlen : (exec true x.body { s1 with log := s1.log ++ [{ id := x.id, at_ := s1.clock, due := x.due, seq := x.seq }] }).1.hlog.length = s1.hlog.length := by
+        rw [(exec_frame true x.body { s1 with log := s1.log ++ [{ id := x.id, at_ := s1.clock, due := x.due, seq := x.seq }] }).2.2.1]
+      rw [h3, hlen, hh]; simp
   rw [hinv] at hi
   simp only at hi
   have hf := exec_frame true x.body { s1 with log := s1.log ++ [{ id := x.id, at_ := s1.clock, due := x.due, seq := x.seq }] }
@@ -147,7 +150,7 @@ theorem false_propagates (cfg : Cfg) (tgt : Option Int) (s s1 : St) (x : Item) (
     (hen : s.enabled = true) (hd : s.queue.dequeue? Item.due = some (x, q')) (hpt : pastTarget tgt x = false)
     (ht : tick cfg tgt s x q' = some s1) (hc : x.cancelled = false) (hw : x.wrapped = true)
     (hr : (exec true x.body { s1 with log := s1.log ++ [{ id := x.id, at_ := s1.clock, due := x.due, seq := x.seq }] }).2 = some e)
-    (hh : cfg.handler e = false) :
+    (hh : cfg.handler s1.hlog.length e = false) :
     ∃ s2, loop cfg tgt s = (s2, .raised e) ∧ s2.hlog = s1.hlog ++ [e] := by
   have hi := iter_invokes hen hd hpt ht hc
   have hinv : invoke cfg x s1 = ({ (exec true x.body { s1 with log := s1.log ++ [{ id := x.id, at_ := s1.clock, due := x.due, seq := x.seq }] }).1 with
@@ -158,7 +161,9 @@ theorem false_propagates (cfg : Cfg) (tgt : Option Int) (s s1 : St) (x : Item) (
     · rw [hw] at h1 h3; rw [hr] at h1
       have : e' = e := (Option.some.inj h1).symm
       subst this
-      rw [h3, hh]; simp
+      have hlen : (exec true x.body { s1 with log := s1.log ++ [{ id := x.id, at_ := s1.clock, due := x.due, seq := x.seq }] }).1.hlog.length = s1.hlog.length := by
+        rw [(exec_frame true x.body { s1 with log := s1.log ++ [{ id := x.id, at_ := s1.clock, due := x.due, seq := x.seq }] }).2.2.1]
+      rw [h3, hlen, hh]; simp
   rw [hinv] at hi
   simp only at hi
   have hf := exec_frame true x.body { s1 with log := s1.log ++ [{ id := x.id, at_ := s1.clock, due := x.due, seq := x.seq }] }
@@ -267,7 +272,7 @@ private def demo : St :=
   ({ clock := 0 } : St).enqueue 1 0
     (.sched .handed .rel 1 2 (.raise "b") (.sched .inner .rel 2 3 (.raise "c") (.raise "a"))) true
 
-private def demoCfg : Cfg := { handler := fun e => e == "a" || e == "b" }
+private def demoCfg : Cfg := { handler := fun _ e => e == "a" || e == "b" }
 
 /-- "a" and "b" reach the handler and are swallowed (the run continues); 3 was scheduled behind the
 CatchScheduler's back, so "c" escapes without the handler seeing it -/
